@@ -183,4 +183,235 @@ theorem trace_inv (o : TObj) (h : o.Inv) (ss : List Step) : ∀ o' ∈ trace D o
 
 end steps
 
+/-! ### failure paths (round 2): refused calls, partial updates -/
+
+theorem execEvents_noRaise {es : List Ev} (h : noRaise es = true) (a : UnitArg) (st : RawAttrs) :
+    (execEvents es a st).2 = false := by
+  induction es generalizing st with
+  | nil => rfl
+  | cons e es ih =>
+    simp only [noRaise, List.all_cons, Bool.and_eq_true] at h
+    obtain ⟨he, hes⟩ := h
+    cases e <;> simp [Ev.canRaise] at he <;> simp only [execEvents] <;> exact ih hes _
+
+/-- when nothing is written before something that can still raise, a call that raises leaves both attributes as they were -/
+theorem execEvents_atomic {es : List Ev} (h : atomic es = true) (a : UnitArg) (st : RawAttrs)
+    (hr : (execEvents es a st).2 = true) : (execEvents es a st).1 = st := by
+  induction es generalizing st with
+  | nil => rfl
+  | cons e es ih =>
+    cases e with
+    | writeLabel =>
+      simp only [atomic, Ev.isWrite, if_true] at h
+      simp only [execEvents, execEvents_noRaise h] at hr; cases hr
+    | writeFactor =>
+      simp only [atomic, Ev.isWrite, if_true] at h
+      simp only [execEvents, execEvents_noRaise h] at hr; cases hr
+    | lookup =>
+      simp [atomic, Ev.isWrite] at h
+      simp only [execEvents] at hr ⊢
+      split
+      · rename_i hk; simp only [hk, if_true] at hr; exact ih h _ hr
+      · rfl
+    | raiseIfNone =>
+      simp [atomic, Ev.isWrite] at h
+      simp only [execEvents] at hr ⊢
+      split
+      · rfl
+      · rename_i hk; simp only [hk, if_false] at hr; exact ih h _ hr
+    | raiseIfInvalid =>
+      simp [atomic, Ev.isWrite] at h
+      simp only [execEvents] at hr ⊢
+      split
+      · rename_i hk; simp only [hk, if_true] at hr; exact ih h _ hr
+      · rfl
+    | raiseOther =>
+      simp [atomic, Ev.isWrite] at h
+      simp only [execEvents] at hr ⊢
+      exact ih h _ hr
+    | unknown => simp [atomic, Ev.isWrite] at h
+
+/-- whether a call raises depends on the argument only, not on what the object holds -/
+theorem execEvents_raised_indep (es : List Ev) (a : UnitArg) (st st' : RawAttrs) :
+    (execEvents es a st).2 = (execEvents es a st').2 := by
+  induction es generalizing st st' with
+  | nil => rfl
+  | cons e es ih =>
+    cases e <;> simp only [execEvents]
+    · exact ih _ _
+    · exact ih _ _
+    · split
+      · exact ih _ _
+      · rfl
+    · split
+      · rfl
+      · exact ih _ _
+    · split
+      · exact ih _ _
+      · rfl
+    · exact ih _ _
+    · exact ih _ _
+
+/-- the failure-path facts a class must satisfy: no attribute written before something that can still raise, and the
+constructor never writes to its argument -/
+def FailDiscipline.atomicAll (F : FailDiscipline) : Bool := atomic F.convertEvents && !F.newTouchesArgument
+
+/-- a step the model covers: a refused method call is of a method that writes no attribute; the constructor is refused for
+an invalid unit (a valid one is an ordinary `wrap` step); an ACCEPTED `convert_unit` was given something that names a unit -/
+def HStep.covered (F : FailDiscipline) : HStep → Bool
+  | .ok _ => true
+  | .bad (.conv a) => (execEvents F.convertEvents a ⟨Option.none, 0⟩).2 || a.label?.isSome
+  | .bad (.wrap a) => !a.isKey
+  | .bad (.call m) => !F.attrWriters.contains m
+
+theorem stepBad_refused (D : Discipline) {F : FailDiscipline} (hF : F.atomicAll = true) (o : TObj) (b : BadStep)
+    (hc : (HStep.bad b).covered F = true) (hr : (stepBad D F o b).refused = true) :
+    (stepBad D F o b).raw = o.attrs.raw ∧ (stepBad D F o b).next = some o := by
+  simp only [FailDiscipline.atomicAll, Bool.and_eq_true, Bool.not_eq_true'] at hF
+  obtain ⟨hat, hnew⟩ := hF
+  cases b with
+  | conv a =>
+    simp only [stepBad] at hr ⊢
+    cases hx : execEvents F.convertEvents a o.attrs.raw with
+    | mk r raised =>
+      simp only [hx] at hr ⊢
+      cases raised with
+      | true =>
+        have := execEvents_atomic hat a o.attrs.raw (by rw [hx])
+        rw [hx] at this
+        simp only at this
+        subst this
+        simp [RawAttrs.attrs?, Attrs.raw]
+      | false =>
+        simp only [Bool.false_eq_true, if_false] at hr
+        cases hl : a.label? <;> simp [hl] at hr
+  | wrap a =>
+    simp only [HStep.covered, Bool.not_eq_true'] at hc
+    simp [stepBad, hc, hnew]
+  | call m =>
+    simp only [HStep.covered, Bool.not_eq_true', List.contains_eq_mem, decide_eq_false_iff_not] at hc
+    simp [stepBad, hc]
+
+/-- the object a history with refused calls ends with (`none`: it stopped) -/
+def curX (D : Discipline) (F : FailDiscipline) (o : TObj) : List HStep → Option TObj
+  | [] => some o
+  | .ok s :: hs => match stepO D o s with
+    | .ok o' => curX D F o' hs
+    | .error _ => Option.none
+  | .bad b :: hs => match (stepBad D F o b).next with
+    | some o' => curX D F o' hs
+    | Option.none => Option.none
+
+/-- … of a history of accepted steps -/
+def cur (D : Discipline) (o : TObj) : List Step → Option TObj
+  | [] => some o
+  | s :: ss => match stepO D o s with
+    | .ok o' => cur D o' ss
+    | .error _ => Option.none
+
+theorem stepBad_next (D : Discipline) {F : FailDiscipline} (hF : F.atomicAll = true) (o : TObj) (b : BadStep)
+    (hc : (HStep.bad b).covered F = true) :
+    (stepBad D F o b).next = match (HStep.bad b).accepted? F with
+      | some s => (stepO D o s).toOption
+      | Option.none => some o := by
+  by_cases hr : (stepBad D F o b).refused = true
+  · rw [(stepBad_refused D hF o b hc hr).2]
+    cases b with
+    | conv a =>
+      have : (execEvents F.convertEvents a ⟨Option.none, 0⟩).2 = true := by
+        rw [execEvents_raised_indep _ _ _ o.attrs.raw]
+        simp only [stepBad] at hr
+        cases hx : execEvents F.convertEvents a o.attrs.raw with
+        | mk r raised =>
+          cases raised with
+          | true => rfl
+          | false =>
+            simp only [hx, Bool.false_eq_true, if_false] at hr
+            cases hl : a.label? <;> simp [hl] at hr
+      simp [HStep.accepted?, this]
+    | wrap a => rfl
+    | call m => rfl
+  · cases b with
+    | conv a =>
+      simp only [stepBad] at hr ⊢
+      cases hx : execEvents F.convertEvents a o.attrs.raw with
+      | mk r raised =>
+        cases raised with
+        | true => simp [hx] at hr
+        | false =>
+          have h0 : (execEvents F.convertEvents a ⟨Option.none, 0⟩).2 = false := by
+            rw [execEvents_raised_indep _ _ _ o.attrs.raw, hx]
+          simp only [HStep.covered, h0, Bool.false_or] at hc
+          cases hl : a.label? with
+          | none => simp [hl] at hc
+          | some u => simp [HStep.accepted?, h0, hl]
+    | wrap a =>
+      simp only [HStep.covered, Bool.not_eq_true'] at hc
+      simp only [FailDiscipline.atomicAll, Bool.and_eq_true, Bool.not_eq_true'] at hF
+      simp [stepBad, hc, hF.2] at hr
+    | call m =>
+      simp only [HStep.covered, Bool.not_eq_true', List.contains_eq_mem, decide_eq_false_iff_not] at hc
+      simp [stepBad, hc] at hr
+
+/-- refused calls are invisible: the history ends with the object the accepted calls alone produce -/
+theorem curX_eq_cur (D : Discipline) {F : FailDiscipline} (hF : F.atomicAll = true) (o : TObj) (hs : List HStep)
+    (hc : ∀ h ∈ hs, h.covered F = true) : curX D F o hs = cur D o (hs.filterMap (HStep.accepted? F)) := by
+  induction hs generalizing o with
+  | nil => rfl
+  | cons h hs ih =>
+    have hc' : ∀ h ∈ hs, h.covered F = true := fun x hx => hc x (List.mem_cons_of_mem _ hx)
+    cases h with
+    | ok s =>
+      simp only [curX, List.filterMap_cons, HStep.accepted?, cur]
+      cases stepO D o s with
+      | ok o' => exact ih o' hc'
+      | error e => rfl
+    | bad b =>
+      have hn := stepBad_next D hF o b (hc _ (List.mem_cons_self ..))
+      simp only [curX, List.filterMap_cons, hn]
+      cases ha : (HStep.bad b).accepted? F with
+      | none => exact ih o hc'
+      | some s =>
+        simp only [cur]
+        cases stepO D o s with
+        | ok o' => exact ih o' hc'
+        | error e => rfl
+
+theorem traceX_inv {D : Discipline} (hD : D.consistent = true) {F : FailDiscipline} (hF : F.atomicAll = true) (o : TObj)
+    (h : o.Inv) (hs : List HStep) (hc : ∀ h ∈ hs, h.covered F = true) : ∀ o' ∈ traceX D F o hs, o'.Inv := by
+  induction hs generalizing o with
+  | nil => intro o' ho'; simp only [traceX, List.mem_singleton] at ho'; subst ho'; exact h
+  | cons x hs ih =>
+    have hc' : ∀ h ∈ hs, h.covered F = true := fun y hy => hc y (List.mem_cons_of_mem _ hy)
+    intro o' ho'
+    cases x with
+    | ok s =>
+      simp only [traceX] at ho'
+      cases hs' : stepO D o s with
+      | error e => simp only [hs', List.mem_singleton] at ho'; subst ho'; exact h
+      | ok o1 =>
+        simp only [hs', List.mem_cons] at ho'
+        rcases ho' with rfl | ho'
+        · exact h
+        · exact ih o1 (stepO_inv hD o h s o1 hs') hc' o' ho'
+    | bad b =>
+      have hn := stepBad_next D hF o b (hc _ (List.mem_cons_self ..))
+      simp only [traceX, hn] at ho'
+      cases ha : (HStep.bad b).accepted? F with
+      | none =>
+        simp only [ha, List.mem_cons] at ho'
+        rcases ho' with rfl | ho'
+        · exact h
+        · exact ih o h hc' o' ho'
+      | some s =>
+        simp only [ha] at ho'
+        cases hs' : stepO D o s with
+        | error e => simp only [hs', Except.toOption, List.mem_singleton] at ho'; subst ho'; exact h
+        | ok o1 =>
+          simp only [hs', Except.toOption, List.mem_cons] at ho'
+          rcases ho' with rfl | ho'
+          · exact h
+          · exact ih o1 (stepO_inv hD o h s o1 hs') hc' o' ho'
+
+
 end Nitime.C01
